@@ -108,7 +108,8 @@ def run_session(scn, sched, keep_sim=True, max_decisions=None, extra_setup=None)
                                     kinds=it.get('kinds')))
     sim = Sim(policy, stalls=stalls, interrupts=interrupts,
               max_decisions=max_decisions or sched.get('max_decisions', 400_000),
-              max_time=sched.get('max_time', 1e7))
+              max_time=sched.get('max_time', 1e7),
+              steps_after_fault=sched.get('steps_after_fault'))
     ncfg = sched.get('net', {})
     netw = net.Network(net.NetConfig(nrng, ncfg.get('chunk', 'whole'),
                                      ncfg.get('latency', 'const'),
